@@ -843,14 +843,13 @@ found:
 		escape := false
 		for i, c := range x.line {
 			if escape {
-				// Continuation line - remove \ then continue,
-				// except in a raw string which keeps both
+				// Continuation line - keep the \ and the
+				// newline: a raw string has both in it and
+				// DecodeEscape drops the pair from any other.
+				// (Dropping them here would join what is on
+				// either side into one escape: "\0\<newline>0")
 				if c == '\n' {
-					if rawString {
-						_, _ = buf.WriteRune(c)
-					} else {
-						buf.Truncate(buf.Len() - 1)
-					}
+					_, _ = buf.WriteRune(c)
 					goto readMore
 				}
 				_, _ = buf.WriteRune(c)
